@@ -192,4 +192,36 @@ Cases28 == Number({ [x EXCEPT !.two = (x.c.tickets /\ x.s.tickets)] : x \in {y \
 ASSUME Gen = "C28" =>
          /\ ndJsonSerialize("c28_cases.ndjson", Cases28)
          /\ PrintT(<<"GENERATED", Len(Cases28), Cardinality({i \in 1..Len(Cases28) : Cases28[i].two})>>)
+
+-----------------------------------------------------------------------------
+(* C32: the adversary actions of TLSHandshakeMC (A_Corrupt, A_Alter, A_Drop, A_Insert, EnvClose)
+   made concrete: (configuration) x (direction) x (record index = message boundary) x (corruption
+   kind x position class / inserted record kind), plus byte-stream cases per configuration.
+   The demanded outcome is the same everywhere: every endpoint ends in {done, failed}. *)
+Combos32 ==
+  { <<10, 47, "R", 0>>, <<10, 49161, "P", 0>>, <<11, 49172, "R", 4>>, <<12, 156, "R", 0>>, <<12, 49199, "R", 4>>,
+    <<12, 49195, "E", 0>>, <<12, 158, "R", 0>>, <<13, 0, "E", 0>>, <<13, 0, "R", 4>> }
+  \cup (IF Tier = "quick" THEN {} ELSE
+        { <<10, 51, "R", 0>>, <<10, 49171, "R", 4>>, <<11, 5, "R", 0>>, <<11, 49161, "P", 4>>, <<12, 49195, "P", 4>>,
+          <<12, 52393, "Q", 0>>, <<12, 49191, "R", 0>>, <<13, 0, "P", 0>>, <<13, 0, "E", 4>> })
+MaxIdx32 == IF Tier = "quick" THEN 7 ELSE 11
+Faults32 ==
+  { [kind |-> "flip", pos |-> p, mask |-> m, sub |-> ""] : p \in 0..5, m \in {1, 128} }
+  \cup { [kind |-> k, pos |-> p, mask |-> 0, sub |-> ""] : k \in {"trunc", "split", "refrag"}, p \in 0..4 }
+  \cup { [kind |-> k, pos |-> 0, mask |-> 0, sub |-> ""] : k \in {"dup", "drop", "close"} }
+  \cup { [kind |-> "garbage", pos |-> 0, mask |-> 0, sub |-> x] : x \in {"keep-header", "all"} }
+  \cup { [kind |-> "insert", pos |-> 0, mask |-> 0, sub |-> x] :
+           x \in {"junk-handshake", "short-handshake", "huge-handshake", "alert-warning", "alert-fatal", "unknown-type",
+                  "empty-appdata", "empty-handshake", "ccs", "oversize"} }
+Mk32(co, d, i, f, sd) ==
+  [id |-> 0, vers |-> co[1], suite |-> co[2], key |-> co[3], auth |-> co[4], dir |-> d, idx |-> i,
+   kind |-> f.kind, pos |-> f.pos, mask |-> f.mask, sub |-> f.sub, seed |-> sd]
+Cases32 == Number(
+  { Mk32(co, d, i, f, Seed) : co \in Combos32, d \in {0, 1}, i \in 0..MaxIdx32, f \in Faults32 }
+  \cup { Mk32(co, d, 0, [kind |-> "stream", pos |-> k % 3, mask |-> k % 4, sub |-> x], Seed * 1000 + k) :
+           co \in Combos32, d \in {0, 1}, x \in {"random", "header-random", "transcript"},
+           k \in 1..(IF Tier = "quick" THEN 6 ELSE 40) } )
+ASSUME Gen = "C32" =>
+         /\ ndJsonSerialize("c32_cases.ndjson", Cases32)
+         /\ PrintT(<<"GENERATED", Len(Cases32), Cardinality({i \in 1..Len(Cases32) : Cases32[i].kind = "stream"})>>)
 =============================================================================
